@@ -34,7 +34,7 @@ func init() {
 		Rule: "cases: #0 environment walk of the script-visible globals (copied construction + probe through the real RunLuaScript) with dynamic escape probes against sentinel files; " +
 			"#1 the same probes, the fast hostile corpus and generated programs under strace, bracketed by marker syscalls; then one case per hostile-corpus unit " +
 			"(non-terminating scripts, pattern / gsub / load bombs as growing families, large-but-modest inputs, recursion, error() variants, wrong return types, bad arguments, environment tampering, cross-call isolation); " +
-			"then batches of 25 grammar-generated programs; then batches of 50 generated JSON-like values through identity scripts. Every script is executed exactly as ingress/custom executeLuaForCanary do " +
+			"then batches of 25 grammar-generated programs; then batches of 50 generated JSON-like values through identity scripts; last case: ~230 scripts covering every shape of return value (none, nil, scalars, functions, coroutines, throwing metatables, two and three values, error() with non-strings) handed to the REAL customNetworkProvider (NewCustomController / Initialize / EnsureRoutes on a fake client) - a panic there is a violation. Every script is executed exactly as ingress/custom executeLuaForCanary do " +
 			"(RunLuaScript, l.Get(-1), type test, luamanager.Encode, json.Unmarshal into the caller's type) in a child process, one script at a time, GOMAXPROCS=1, getrusage around the call. " +
 			"distinct = distinct (category, script name or generated-feature set, outcome) signature.",
 		Assumptions: []string{
@@ -68,7 +68,7 @@ func planFor(env *core.Env) plan {
 	} else {
 		p.nGrammar, p.nRT = 1500/grammarPerCase, 40
 	}
-	p.total = 2 + p.nHostile + p.nGrammar + p.nRT
+	p.total = 2 + p.nHostile + p.nGrammar + p.nRT + 1 // + the return-shape case through the real provider (last index)
 	return p
 }
 
@@ -92,6 +92,8 @@ func runCase(env *core.Env, idx int) *core.CaseResult {
 		runHostileCase(env, hostileUnits(env.Thorough())[idx-2], res)
 	case idx < 2+p.nHostile+p.nGrammar:
 		runGrammarCase(env, idx, res)
+	case idx == p.total-1:
+		runProviderCase(res)
 	default:
 		runRoundTripCase(env, idx, res)
 	}
